@@ -145,6 +145,26 @@ def main():
                     if np.any(relres > relref * (1 + 1e-3) + 1e-7):
                         found(clause="the iterate attains the smallest residual over x0 + K_m (homogeneity in the right-hand side)", input=inp,
                               observed=f"relative residuals {np.round(relres, 10).tolist()}", expected=f"{np.round(relref, 10).tolist()} (the same problem with s = 1)")
+    # a vector initial guess with the right-hand side given as one column (what inv(A, GMRES(x0=v)) @ b hands to gmres) and as a block
+    import cola
+    from cola.linalg.inverse.gmres import GMRES
+    for cplx in (False, True):
+        n = 6
+        M = (rnd(n, n, cplx=cplx) + 3 * np.eye(n)).astype(np.complex128 if cplx else np.float64)
+        xg = rnd(n, cplx=cplx).astype(M.dtype)
+        for shp in ((n,), (n, 2)):
+            bb = rnd(*shp, cplx=cplx).astype(M.dtype)
+            inp = f"inv({'complex' if cplx else 'real'} 6x6, GMRES(x0=<vector>, max_iters=6, tol=1e-12)) @ (right-hand side of shape {shp}), seed 13"
+            try:
+                xx = np.asarray(cola.inv(Dense(M), GMRES(x0=xg, max_iters=n, tol=1e-12)) @ bb)
+            except Exception as e:
+                found(clause="no exception", input=inp, observed=f"{type(e).__name__}: {str(e)[:200]}", expected="the iterate")
+            nh += 1
+            if xx.shape != bb.shape:
+                found(clause="the iterate has the shape of the right-hand side", input=inp, observed=f"shape {xx.shape}", expected=f"shape {bb.shape}")
+            rr = np.linalg.norm(M @ xx - bb) / np.linalg.norm(bb)
+            if rr > 1e-7:
+                found(clause="zero residual once m reaches n", input=inp, observed=f"relative residual {rr:.3g}", expected="0 (to rounding)")
     print(json.dumps(dict(replayed=True, failing_input_found=False, cases=len(cases) + nh)))
 
 
